@@ -163,6 +163,7 @@ func (p *Program) SSA() *ssa.Program {
 	prog, pkgs := ssautil.AllPackages(p.rootsForSSA(), ssa.InstantiateGenerics)
 	_ = pkgs
 	prog.Build()
+	canonicaliseComparisons(prog)
 	p.ssaProg = prog
 	p.ssaPkgs = map[*types.Package]*ssa.Package{}
 	for _, sp := range prog.AllPackages() {
